@@ -132,6 +132,39 @@ func textDeco(name string) bool {
 	return name == "plain" || name == "tmpl-all" || strings.HasPrefix(name, "for-") || strings.HasPrefix(name, "foronce-")
 }
 
+var afterVariants = []string{"fresh", "engine", "template"}
+
+// enumAfter yields chains whose conditions call a registered function that can fail (nok) behind
+// a leading negation, next to plain and undefined operands, each rendered after a failing variant
+// of the same page in which the same condition texts fail (stale value "ERR"), in all three
+// after-failure variants and both entry points.
+func enumAfter(yield func(Case) bool) {
+	conds := []string{"guard-and:ca:cb", "guard-or:ca:cb", "nota-and:ca:cb", "ca", "!cb", "cc"}
+	for i, c0 := range conds {
+		for j, c1 := range conds {
+			if i == j {
+				continue
+			}
+			for assign := 0; assign < 4; assign++ {
+				for k, after := range afterVariants {
+					body := []Node{plain("s0", ""),
+						{Kind: "if", M: "m0", Cond: c0}, {Kind: "elif", M: "m1", Cond: c1, Sep: "w"}, {Kind: "else", M: "me", Sep: "w"},
+						{Kind: "probe", M: "q0", Cond: c0, Sep: "w"}, {Kind: "probe", M: "q1", Cond: c1, Sep: "w"},
+						plain("s1", "w")}
+					c := Case{Nodes: body, After: after,
+						Vars: map[string]vals.V{"ca": vals.Bool(assign&1 != 0), "cb": vals.Bool(assign&2 != 0)}}
+					if (i+j+assign+k)%2 == 0 {
+						c.Entry = "file"
+					}
+					if !yield(c) {
+						return
+					}
+				}
+			}
+		}
+	}
+}
+
 // enumShapes yields every case of family A; yield returns false to stop. With full=false (quick
 // tier) the longest chains (3 v-else-if) are combined with one sibling layout only and are left
 // out of the adjacent-chain and orphan products; everything else is the same full product.
@@ -141,6 +174,10 @@ func enumShapes(full bool, yield func(Case) bool) {
 		idx++
 		if idx%2 == 0 {
 			c.Entry = "file"
+		}
+		// after-failure dimension on a rotating fraction of the cases with plain variable names
+		if every := map[bool]int{false: 10, true: 3}[full]; idx%every == 0 && c.afterOK() {
+			c.After = afterVariants[(idx/every)%len(afterVariants)]
 		}
 		return yield(c)
 	}
@@ -795,6 +832,9 @@ func genNest(rec *ev.Rec, open map[string]bool) func(*rapid.T) Case {
 		}
 		if rapid.Bool().Draw(t, "file") {
 			c.Entry = "file"
+		}
+		if c.afterOK() && rapid.IntRange(0, 3).Draw(t, "after") == 0 {
+			c.After = rapid.SampledFrom(afterVariants).Draw(t, "afterv")
 		}
 		// keep out of the regions of open known findings by construction: drop the v-for of
 		// exactly the members that fall into them (the choice of member does not change)
